@@ -523,6 +523,15 @@ namespace Pistache::Http
                         if (cursor.eof())
                             return State::Again;
                     }
+
+                    // the last chunk is followed by the CRLF that ends the (empty)
+                    // trailer section; the message is complete only with it
+                    if (cursor.remaining() < 2)
+                        return State::Again;
+                    if (!cursor.eol())
+                        throw std::runtime_error("Chunked trailers are not supported");
+                    cursor.advance(2);
+
                     chunk.reset();
                 }
                 catch (const std::exception& e)
